@@ -190,13 +190,50 @@ func runC12(c *core.Ctx) {
 				}
 				n++
 				o.At(fn.Site(ix, "reads "+core.ExprStr(ix)))
+				// len(s), or a local that holds it while s is not re-sliced
+				sStable := len(core.AssignsTo(info, fn.Decl, s)) == 0
+				isLenS := func(e ast.Expr) bool {
+					if call, isCall := ast.Unparen(e).(*ast.CallExpr); isCall && core.CalleeKey(info, call) == "builtin.len" && core.ObjOf(info, call.Args[0]) == s {
+						return true
+					}
+					if _, isID := ast.Unparen(e).(*ast.Ident); isID && sStable {
+						return resolveText(g, v, e, 2) == "len("+s.Name()+")"
+					}
+					return false
+				}
+				if _, isK := core.IntConst(info, ix.Index); !isK {
+					// s[i]: bounded by i < len(s)
+					bounded := g.GuardedBy(v, func(a core.Atom) bool {
+						cmp, isCmp := a.AsCmp()
+						if !isCmp {
+							return false
+						}
+						l, r, op := cmp.L, cmp.R, cmp.Op
+						if isLenS(l) {
+							l, r, op = r, l, core.FlipOp(op)
+						}
+						return isLenS(r) && op == token.LSS && core.ObjOf(info, l) != nil && core.ObjOf(info, l) == core.ObjOf(info, ix.Index)
+					})
+					if !bounded {
+						o.Unrec("%s: s is read at the computed position %s: the bound of this read is not decided", c.Prog.Pos(ix.Pos()), core.ExprStr(ix.Index))
+					} else if idx := core.ObjOf(info, ix.Index); idx != nil {
+						// the index must not have moved between the test and the read
+						for _, d := range defVertices(g, idx) {
+							for _, bv := range g.BranchVertices() {
+								if bv.Cond.Expr != nil && core.Mentions(info, bv.Cond.Expr, idx) && g.PathExists(bv, d, nil) && g.ReachFrom(d, false, core.AvoidVs(bv))[v] {
+									o.Unrec("%s: the index %s changes between its test and the read: the bound of this read is not decided", c.Prog.Pos(ix.Pos()), idx.Name())
+								}
+							}
+						}
+					}
+					return true
+				}
 				ok2 := g.GuardedBy(v, func(a core.Atom) bool {
 					cmp, isCmp := a.AsCmp()
 					if !isCmp {
 						return false
 					}
-					call, isCall := ast.Unparen(cmp.L).(*ast.CallExpr)
-					if !isCall || core.CalleeKey(info, call) != "builtin.len" || core.ObjOf(info, call.Args[0]) != s {
+					if !isLenS(cmp.L) {
 						return false
 					}
 					k, isK := core.IntConst(info, cmp.R)
@@ -230,7 +267,7 @@ func runC12(c *core.Ctx) {
 			// a return not reachable from the increment must be the empty-input return
 			ok := g.GuardedBy(r, func(a core.Atom) bool {
 				cmp, isCmp := a.AsCmp()
-				return isCmp && cmp.Op == token.EQL && strings.Contains(core.ExprStr(cmp.L), "len(s)")
+				return isCmp && cmp.Op == token.EQL && (strings.Contains(core.ExprStr(cmp.L), "len(s)") || strings.Contains(resolveText(g, r, cmp.L, 2), "len(s)"))
 			})
 			o.Require(ok, "a return without consumption is not the empty-input return")
 		}
@@ -554,8 +591,8 @@ func runC12(c *core.Ctx) {
 		o.At(fn.Site(fn.Decl, ""))
 		count := map[string]int{}
 		field := func(e ast.Expr) string {
-			// r.Low[i], r.Low[a:], r.Low
-			for {
+			// r.Low[i], r.Low[a:], r.Low, and locals that hold one of these (rLow := r.Low; lo := sLow[i])
+			for steps := 0; steps < 8; steps++ {
 				switch x := ast.Unparen(e).(type) {
 				case *ast.IndexExpr:
 					e = x.X
@@ -567,9 +604,25 @@ func runC12(c *core.Ctx) {
 					if x.Sel.Name == "Low" || x.Sel.Name == "High" {
 						return x.Sel.Name
 					}
+				case *ast.Ident:
+					if obj, isVar := info.ObjectOf(x).(*types.Var); isVar && !obj.IsField() {
+						if ds := core.AssignsTo(info, fn.Decl, obj); len(ds) == 1 {
+							if as, isAs := ds[0].(*ast.AssignStmt); isAs && len(as.Lhs) == len(as.Rhs) {
+								for i, l := range as.Lhs {
+									if core.ObjOf(info, l) == obj {
+										e = as.Rhs[i]
+									}
+								}
+								if ast.Unparen(e) != ast.Expr(x) {
+									continue
+								}
+							}
+						}
+					}
 				}
 				return ""
 			}
+			return ""
 		}
 		ast.Inspect(fn.Decl.Body, func(n ast.Node) bool {
 			switch x := n.(type) {
@@ -777,6 +830,10 @@ func ruleMergeAgreement(c *core.Ctx) {
 					}
 				}
 				atoms := atomsBetween(g, head, head, avoid)
+				// a named test (isEqual := a == b; if isEqual { continue }) carries the facts of its definition
+				for _, a := range append([]core.Atom{}, atoms...) {
+					atoms = append(atoms, g.ExpandNamed(a)...)
+				}
 				o.Fact("%s: loop at %s: %d vertices, completed iterations without the adjacency test hold under %s", fn.Key, c.Prog.Pos(loop.Pos()), len(inLoop), c.Prog.FormulaString(core.Formula{Fn: fn, Atoms: atoms}))
 				if atoms == nil && !g.ReachFrom(head, false, core.AvoidVs(avoid...))[head] {
 					continue // every completed iteration passes the adjacency test
@@ -1247,7 +1304,11 @@ func ruleAppendCodeShifts(c *core.Ctx) {
 					if x.Tok == token.BREAK && inner == 0 && x.Label == nil {
 						o.FailAt(fn.Site(x, ""), "%s: the loop over the ranges is abandoned before all ranges were examined: the result depends on the order in which the caller lists the ranges", c.Prog.Pos(x.Pos()))
 					}
-					if x.Tok == token.GOTO || (x.Label != nil && x.Tok == token.BREAK) {
+					if x.Tok == token.GOTO && x.Label != nil && labelIn(outer.Body, x.Label.Name) {
+						// a jump inside the body (the end of a folded-in helper)
+					} else if x.Label != nil && x.Tok == token.BREAK && labelIn(outer.Body, x.Label.Name) {
+						// leaves an inner labelled statement only
+					} else if x.Tok == token.GOTO || (x.Label != nil && x.Tok == token.BREAK) {
 						o.FailAt(fn.Site(x, ""), "%s: labelled exit from the loop over the ranges", c.Prog.Pos(x.Pos()))
 					}
 				case *ast.ReturnStmt:
@@ -1263,4 +1324,16 @@ func ruleAppendCodeShifts(c *core.Ctx) {
 		}
 		walk(outer.Body, 0)
 	})
+}
+
+// labelIn reports whether the label name is declared inside n.
+func labelIn(n ast.Node, name string) bool {
+	found := false
+	ast.Inspect(n, func(m ast.Node) bool {
+		if ls, ok := m.(*ast.LabeledStmt); ok && ls.Label.Name == name {
+			found = true
+		}
+		return !found
+	})
+	return found
 }
